@@ -26,12 +26,12 @@ Empty == <<>>                    \* empty function (dict contents are functions 
 ValidTok(kind) ==
   CASE kind = "pos" -> {"f1_5", "i3", "npf2_5", "f4"}
     [] kind = "posn" -> {"i3", "f4", "i5"}
-    [] kind = "pix" -> {"pA", "pB"}
+    [] kind = "pix" -> {"pA", "pB", "pAc", "pAf"}
     [] kind = "pix1d" -> {"parr3", "parr4"}
     [] kind = "sky" -> {"sA", "sB"}
     [] kind = "sky1d" -> {"sarr3", "sarr4"}
-    [] kind = "ang" -> {"a0", "a30", "arad", "aAngle", "aneg"}
-    [] kind = "posang" -> {"q1as", "q3am", "q2deg"}
+    [] kind = "ang" -> {"a0", "a30", "arad", "aAngle", "aneg", "a30am"}
+    [] kind = "posang" -> {"q1as", "q3am", "q2deg", "q180as"}
     [] kind = "regpix" -> {"regP1", "regP2"}
     [] kind = "regsky" -> {"regS1", "regS2"}
     [] kind = "text" -> {"tHello", "tEmpty"}
@@ -54,7 +54,11 @@ ValidValue(kind, tok) == tok \in ValidTok(kind)
 
 (* numeric order of size tokens, for the annulus inner < outer constraint *)
 Num(tok) == CASE tok = "f1_5" -> 15 [] tok = "npf2_5" -> 25 [] tok = "i3" -> 30 [] tok = "f4" -> 40
-              [] tok = "q1as" -> 1 [] tok = "q3am" -> 180 [] tok = "q2deg" -> 7200 [] OTHER -> 0
+              [] tok = "q1as" -> 1 [] tok = "q3am" -> 180 [] tok = "q180as" -> 180 [] tok = "q2deg" -> 7200 [] OTHER -> 0
+
+(* tokens that denote the same value: angular quantities differing only by unit, and pixel      *)
+(* positions within the documented relative tolerance 1e-5 (pAc = pA + 1e-7; pAf = pA + 1e-3)   *)
+SameValue(t1, t2) == t1 = t2 \/ {t1, t2} \in {{"a30", "a30am"}, {"q3am", "q180as"}, {"pA", "pAc"}}
 
 (* ---------------- classes ---------------- *)
 F(n, k) == <<n, k>>
@@ -108,8 +112,9 @@ ValTokens == {"v1", "v2"}
 (* ---------------- state ---------------- *)
 VARIABLES heap,    \* slot -> [cls, par, meta (dict id), visual (dict id)] or NoObj
           dicts,   \* dict id -> [which, kv]     (function; ids allocated 1, 2, ...)
-          pre, act, out, depth
-vars == <<heap, dicts, pre, act, out, depth>>
+          pre, act, out, depth,
+          eq       \* "eq" / "ne": value equality of the objects in slots 1 and 2 when both are live, else "-"
+vars == <<heap, dicts, pre, act, out, depth, eq>>
 
 Slots == 1..MaxObj
 Live == {s \in Slots : heap[s].cls # "none"}
@@ -118,10 +123,15 @@ NewDict == Len(dicts) + 1
 Put(kv, k, v) == [x \in DOMAIN kv \cup {k} |-> IF x = k THEN v ELSE kv[x]]
 Drop(kv, k) == [x \in DOMAIN kv \ {k} |-> kv[x]]
 
-Init == /\ heap = [s \in Slots |-> NoObj] /\ dicts = <<>> /\ pre = <<>> /\ act = [a |-> "init"] /\ out = "ok" /\ depth = 0
+Init == /\ heap = [s \in Slots |-> NoObj] /\ dicts = <<>> /\ pre = <<>> /\ act = [a |-> "init"] /\ out = "ok" /\ depth = 0 /\ eq = "-"
 
+(* value equality, as documented for Region.__eq__: same class, every parameter, every meta and visual entry *)
+EqIn(h, d, s, t) == /\ h[s].cls = h[t].cls
+                    /\ \A f \in DOMAIN h[s].par : SameValue(h[s].par[f], h[t].par[f])
+                    /\ d[h[s].meta].kv = d[h[t].meta].kv /\ d[h[s].visual].kv = d[h[t].visual].kv
+EqFlag(h, d) == IF MaxObj >= 2 /\ h[1].cls # "none" /\ h[2].cls # "none" THEN (IF EqIn(h, d, 1, 2) THEN "eq" ELSE "ne") ELSE "-"
 Step(a, o, h, d) == /\ pre' = [heap |-> heap, dicts |-> dicts] /\ act' = a /\ out' = o /\ heap' = h /\ dicts' = d
-                    /\ depth' = depth + 1
+                    /\ depth' = depth + 1 /\ eq' = EqFlag(h, d)
 Reject(a, o) == Step(a, o, heap, dicts)
 
 (* ---- construction: cls(args) ---- *)
@@ -139,6 +149,7 @@ CtorExc(cls, p) ==
   IF \E f \in FieldNames(cls) : KindOf(cls, f) = "oper" /\ p[f] \notin ValidTok("oper") THEN "TypeError" ELSE "ValueError"
 Construct(cls, s) ==
   /\ "construct" \in Acts /\ cls \in Classes /\ s \in Free /\ s = CHOOSE x \in Free : \A y \in Free : x <= y
+  /\ ("construct_first_only" \in Acts => s = 1)
   /\ \E p \in GoodArgs(cls) \cup (IF "construct_bad" \in Acts
                                      THEN UNION {{[RepArgs(cls) EXCEPT ![f] = t] : t \in InvalidTok(KindOf(cls, f))} : f \in FieldNames(cls)}
                                      ELSE {}) :
@@ -168,7 +179,9 @@ Delete(s) ==
 (* ---- dict mutation entry points of RegionMeta / RegionVisual ---- *)
 DictOf(s, which) == IF which = "meta" THEN heap[s].meta ELSE heap[s].visual
 MetaOp(s, which, how, k, v) ==
-  /\ "meta" \in Acts /\ s \in Live /\ which \in {"meta", "visual"} /\ k \in KeyTokens(which) /\ v \in ValTokens
+  /\ \/ "meta" \in Acts
+     \/ "meta_small" \in Acts /\ how \in {"setitem", "pop"} /\ k \in {"label", "color"} /\ KeyOK(which, k)
+  /\ s \in Live /\ which \in {"meta", "visual"} /\ k \in KeyTokens(which) /\ v \in ValTokens
   /\ how \in {"setitem", "update", "update_kw", "setdefault", "ior", "pop", "del", "clear"}
   /\ (k = "width" => how \in {"setitem", "update", "update_kw", "ior"})      \* the alias is documented for setting only
   /\ LET id == DictOf(s, which)
@@ -243,14 +256,15 @@ RejectIsStutter == out \notin {"ok"} /\ depth > 0 => heap = pre.heap /\ dicts = 
 NoSharing == \A s, t \in Live : s # t => heap[s].meta # heap[t].meta /\ heap[s].visual # heap[t].visual
                                          /\ heap[s].meta # heap[t].visual
 (* value equality, as documented for Region.__eq__ *)
-Eq(o1, o2) == /\ o1.cls = o2.cls /\ o1.par = o2.par
+Eq(o1, o2) == /\ o1.cls = o2.cls /\ \A f \in DOMAIN o1.par : SameValue(o1.par[f], o2.par[f])
               /\ dicts[o1.meta].kv = dicts[o2.meta].kv /\ dicts[o1.visual].kv = dicts[o2.visual].kv
+EqReflexiveSymmetric == \A s, t \in Live : Eq(heap[s], heap[s]) /\ (Eq(heap[s], heap[t]) <=> Eq(heap[t], heap[s]))
 CopyEqual == act.a = "copy" /\ out = "ok" => Eq(heap[act.slot], heap[act.to])
 CopyWithDiffers == act.a = "copywith" /\ out = "ok" =>
                      LET o == heap[act.slot]  c == heap[act.to] IN
                      /\ c.cls = o.cls /\ c.par = [o.par EXCEPT ![act.field] = act.value]
                      /\ dicts[c.meta].kv = dicts[o.meta].kv /\ dicts[c.visual].kv = dicts[o.visual].kv
-                     /\ (Eq(o, c) <=> o.par[act.field] = act.value)
+                     /\ (Eq(o, c) <=> SameValue(o.par[act.field], act.value))
 (* mutating one object never shows in another *)
 Independent == act.a \in {"assign", "meta", "metaassign"} /\ depth > 0 =>
                  \A s \in Slots \ {act.slot} : /\ heap[s] = pre.heap[s]
